@@ -70,7 +70,7 @@ func (h *hist) doSplitEdit(name string, toks []string, chunks []func()) {
 		<-resumeCh
 	}
 	before := h.beginOp("cend")
-	contentBefore := h.lastObs
+	contentBefore := h.liveObs().kvKey()
 	go func() {
 		var d done
 		defer func() {
@@ -102,7 +102,7 @@ func (h *hist) doSplitEdit(name string, toks []string, chunks []func()) {
 				h.c.Branch("region:other-committers-inside-commit")
 			}
 			before = h.beginOp("cend")
-			contentBefore = h.lastObs
+			contentBefore = h.liveObs().kvKey()
 			resumeCh <- struct{}{}
 		case <-time.After(120 * time.Second):
 			// cannot happen while exactly one goroutine runs at a time; reported instead of hanging the run
@@ -132,7 +132,7 @@ func (h *hist) doSplitEdit(name string, toks []string, chunks []func()) {
 			}
 			// a bookkeeping commit changes no key/value content and no sequence: the committed flushes of the
 			// other goroutines must all still be there
-			if got := h.liveObs().propKey(); got != contentBefore {
+			if got := h.liveObs().kvKey(); got != contentBefore {
 				h.c.Fail("commit-dropped-committed-content", fmt.Sprintf("bookkeeping commit of family %s (with %d schedule points outside vs.mutex): the store showed %q before its critical section and %q after",
 					name, windows, contentBefore, got))
 			}
